@@ -2,15 +2,19 @@
   Model of the JSON round trip of evaluation results and Cartesian regions:
     csep/models.py:82  EvaluationResult.to_dict      csep/models.py:102 EvaluationResult.from_dict
     csep/__init__.py:387 load_evaluation_result (factory keyed by the stored class name)
-    csep/core/repositories.py:60 FileSystem.save  (json.dump(..., default=str))   :104 write_json   :48 load
+    csep/core/repositories.py:60 FileSystem.save  (json.dump(..., default=_json_default))   :107 _json_default
+    :114 write_json   :48 load
     csep/core/regions.py:688 CartesianGrid2D.to_dict   :698 from_dict   :724 from_origins
   Exact layer, import-free.
 
-  Python values are a small ADT with the kinds that matter for `json.dump(default=str)`:
+  Python values are a small ADT with the kinds that matter for `json.dump(default=_json_default)`:
     * int / bool / float / str / None / list / tuple are serialised natively (tuple → array; NaN, ±Infinity as the
       bare tokens Python's json writes and reads back);
     * numpy.float64 IS a Python float subclass and is written as a number;
-    * numpy.int64, numpy.bool_, numpy.float32, … are NOT JSON serialisable: `default=str` turns them into STRINGS;
+    * numpy.int64, numpy.bool_, numpy.float32, … are NOT JSON serialisable: `_json_default` (repositories.py:107,
+      commit 98f1bb3) hands json their `.item()`, the Python int / bool / float they hold, so they are written as
+      numbers / booleans (before that fix `default=str` wrote them as STRINGS);
+    * any other object json cannot encode (an ndarray nested in a field, a datetime, …) is still written as `str(obj)`;
     * numpy.ndarray only occurs as `test_distribution`, where to_dict calls `.tolist()`.
   The text layer (json.dumps / json.loads on the JSON tree, repr/float round trip) is trusted and re-checked by the
   harness on every generated value.
@@ -30,9 +34,12 @@ mutual
     | pyBool (b : Bool)
     | pyFloat (x : F64)
     | npFloat64 (x : F64)
+    /-- any numpy integer scalar (int64, int32, uint8, …) -/
     | npInt64 (n : Int)
     | npBool (b : Bool)
-    /-- any other numpy scalar (float32, int32, …) or object json cannot encode; `s` is its `str()` -/
+    /-- a numpy floating scalar that is not a float64 (float32, float16); `x` is the double `.item()` returns -/
+    | npFloat32 (x : F64)
+    /-- any non-numpy object json cannot encode (ndarray inside a field, datetime, …); `s` is its `str()` -/
     | other (s : String)
     | str (s : String)
     | none
@@ -58,20 +65,17 @@ mutual
     | cons (v : Json) (vs : JList)
 end
 
-/-- Python `str(numpy.bool_(b))` / `str(True)` -/
-def boolStr (b : Bool) : String := if b then "True" else "False"
-
 mutual
-  /-- `json.dump(v, default=str)`; `none` = TypeError is impossible here because default=str accepts everything,
-      except that an ndarray nested in a field is stringified too (modelled as `other`) -/
+  /-- `json.dump(v, default=_json_default)`: numpy scalars through `.item()`, other unknown objects through `str` -/
   def toJson : PyVal → Json
     | .pyInt n => .int n
     | .pyBool b => .bool b
     | .pyFloat x => .float x
     | .npFloat64 x => .float x                 -- numpy.float64 is a float subclass
-    | .npInt64 n => .str (toString n)          -- default=str
-    | .npBool b => .str (boolStr b)            -- default=str
-    | .other s => .str s                       -- default=str
+    | .npInt64 n => .int n                     -- _json_default: obj.item() is a Python int
+    | .npBool b => .bool b                     -- _json_default: obj.item() is a Python bool
+    | .npFloat32 x => .float x                 -- _json_default: obj.item() is a Python float
+    | .other s => .str s                       -- _json_default: str(obj)
     | .str s => .str s
     | .none => .null
     | .list xs => .arr (toJsonL xs)
@@ -100,10 +104,14 @@ end
 def roundTrip (v : PyVal) : PyVal := fromJson (toJson v)
 
 mutual
-  /-- what "equal" means after a round trip: tuples and arrays come back as lists and the numpy.float64 wrapper is
-      dropped; the numeric payload (incl. NaN, ±inf), ints, strings, None and the nesting are unchanged -/
+  /-- what "equal" means after a round trip: tuples and arrays come back as lists and numpy scalar wrappers are
+      dropped (numpy.int64(4) ↦ 4, numpy.bool_(True) ↦ True, numpy.float32/64(x) ↦ x); the numeric payload
+      (incl. NaN, ±inf), ints, strings, None and the nesting are unchanged -/
   def norm : PyVal → PyVal
     | .npFloat64 x => .pyFloat x
+    | .npInt64 n => .pyInt n
+    | .npBool b => .pyBool b
+    | .npFloat32 x => .pyFloat x
     | .list xs => .list (normL xs)
     | .tuple xs => .list (normL xs)
     | .ndarray xs => .list (normL xs)
@@ -114,7 +122,8 @@ mutual
 end
 
 mutual
-  /-- the safe kinds: int, bool, float, numpy.float64, str, None and lists / tuples / arrays of safe values -/
+  /-- the safe kinds: int, bool, float, every numpy integer / bool / floating scalar, str, None and
+      lists / tuples / arrays of safe values.  Only objects that reach `str(obj)` are unsafe. -/
   def Safe : PyVal → Prop
     | .pyInt _ => True
     | .pyBool _ => True
@@ -125,8 +134,9 @@ mutual
     | .list xs => SafeL xs
     | .tuple xs => SafeL xs
     | .ndarray xs => SafeL xs
-    | .npInt64 _ => False
-    | .npBool _ => False
+    | .npInt64 _ => True
+    | .npBool _ => True
+    | .npFloat32 _ => True
     | .other _ => False
   def SafeL : PyList → Prop
     | .nil => True
@@ -136,8 +146,9 @@ end
 mutual
   def safeB : PyVal → Bool
     | .pyInt _ | .pyBool _ | .pyFloat _ | .npFloat64 _ | .str _ | .none => true
+    | .npInt64 _ | .npBool _ | .npFloat32 _ => true
     | .list xs | .tuple xs | .ndarray xs => safeLB xs
-    | .npInt64 _ | .npBool _ | .other _ => false
+    | .other _ => false
   def safeLB : PyList → Bool
     | .nil => true
     | .cons v vs => safeB v && safeLB vs
@@ -155,6 +166,7 @@ def tdList : PyVal → Option PyVal
   | .npFloat64 x => some (.pyFloat x)
   | .npInt64 n => some (.pyInt n)
   | .npBool b => some (.pyBool b)
+  | .npFloat32 x => some (.pyFloat x)
   | .list xs => some (.list xs)
   | .tuple xs => some (.list xs)
   | .str s => some (.list (PyList.ofList (s.toList.map (fun c => PyVal.str (String.singleton c)))))
@@ -210,7 +222,7 @@ def factoryTable : List (String × String) :=
 /-- `evaluation_result_factory[evaluation_type]`; `none` = KeyError -/
 def factory (key : String) : Option String := factoryTable.lookup key
 
-/-- write_json(result, fname): to_dict then json.dump(default=str). `none` = to_dict raised TypeError. -/
+/-- write_json(result, fname): to_dict then json.dump(default=_json_default). `none` = to_dict raised TypeError. -/
 def write (r : Result) : Option JResult :=
   (tdList r.testDistribution).map fun td =>
     { type := r.cls
